@@ -43,6 +43,8 @@ structure Obs where
   wall : Nat
   rss : Int
   retried : Bool
+  /-- CPU time (user + system) the child spent in the evaluation, ms; -1 when not reported -/
+  cpu : Int := -1
 
 def parseCase (s : String) : Option Case :=
   match splitOn s ';' with
@@ -60,7 +62,8 @@ def field (kvs : List String) (k : String) : Option String :=
 def parseObs (s : String) : Option Obs := do
   let kvs := splitOn s ';'
   pure { exit := ← field kvs "exit", res := ← field kvs "res", wall := ← (← field kvs "wall").toNat?,
-         rss := ← (← field kvs "rss").toInt?, retried := (← field kvs "retried") == "1" }
+         rss := ← (← field kvs "rss").toInt?, retried := (← field kvs "retried") == "1",
+         cpu := ((field kvs "cpu").bind (·.toInt?)).getD (-1) }
 
 def Case.maxDepth (c : Case) : Nat := if c.d == 0 then defaultMaxDepth else c.d
 
@@ -145,7 +148,13 @@ def resOk (c : Case) (res : String) : Bool :=
   else if c.fam.startsWith "dag-" then res == "ok" || res == "deadline" || res == "mem" || res == "err"
   else false
 
-def timeOk (c : Case) (o : Obs) : Bool := c.t == 0 || o.wall ≤ c.t + slackMs
+/-- the time a run took, for the deadline clause: the wall-clock time, or - for the families that compute (all but
+`sleep`, which waits by design) - the CPU time when that is smaller: on a busy machine the wall-clock time also counts
+how long the process waited for a processor.  A run that really overruns its deadline by computing burns that CPU time. -/
+def effTime (c : Case) (o : Obs) : Nat :=
+  if c.fam == "sleep" || o.cpu < 0 then o.wall else min o.wall o.cpu.toNat
+
+def timeOk (c : Case) (o : Obs) : Bool := c.t == 0 || effTime c o ≤ c.t + slackMs
 def rssOk (o : Obs) : Bool := 0 ≤ o.rss && o.rss ≤ rssFactor * memLimitKB
 
 /-- **C09, runtime part, on one measured run**: the child exited normally (never killed, never a fatal
@@ -172,7 +181,7 @@ def klassOf (c : Case) (o : Obs) : String :=
 def overBucket (c : Case) (o : Obs) : String :=
   if c.t == 0 then "no-deadline"
   else
-    let over := o.wall - c.t
+    let over := effTime c o - c.t
     if over ≤ 50 then "over<=50ms" else if over ≤ 500 then "over<=500ms" else if over ≤ 1500 then "over<=1.5s"
     else if over ≤ slackMs then "over<=slack" else "over>slack"
 
